@@ -13,6 +13,8 @@ import numpy as np
 
 import common as C
 
+STATS = dict(gen_ops=0, resets=0, int_seed_states=0, entropy_states=0, fields_checked=0, noise_fields=0, raises=0,
+             fresh_generators_built=0)
 KEY_C = "isclose-stale: in-place model parameter change with |delta| <= 1e-8 + 1e-5*|v| before SRF.__call__"
 
 CLS_PPF = ["Gaussian", "Exponential"]        # inversion sampling path
@@ -372,6 +374,7 @@ def run_plan_rm(ctx, gs, drv, plan):
             if not ob["mid"] and (exp_state is None or not same_state(exp_state, ob["master"])):
                 what = "RNG stream position: master RNG is not at sub-stream %d after seeding with %s" % (m_pos, (ekind, evl))
         last_resets = m_resets
+        STATS["int_seed_states" if md_ek == 0 else "entropy_states"] += 1
         if what is None and md_ek == 0:
             fr = fresh_rm(gs, cache, cls, tbl, md_mi, md_n, md_ev)
             if not (C.bit_equal(fr._z_1, ob["z1"]) and C.bit_equal(fr._z_2, ob["z2"]) and C.bit_equal(fr._cov_sample, ob["cs"])):
@@ -389,6 +392,8 @@ def run_plan_rm(ctx, gs, drv, plan):
                     return 0.0
                 sub = stream.subseed(n_ek, n_ev, n_pos)
                 return np.sqrt(gm.nugget) * np.random.RandomState(sub).normal(size=shape)
+            STATS["fields_checked"] += 1
+            STATS["noise_fields"] += int(has_noise)
             exp = expected_rm_field(gs, cls, fr, gm, o_n, ob["info"]["pos"], noise)
             exp = np.reshape(exp, np.shape(ob["out"]))
             if has_noise != (gm.nugget > 0 and (ob["info"]["srf"] or gops[t - 1][2] == 1)):
@@ -399,11 +404,14 @@ def run_plan_rm(ctx, gs, drv, plan):
         if what is not None:
             step = "init" if t == 0 else "generator-level op %d %r" % (t - 1, gops[t - 1])
             # a counter-example to the property itself?  (field / modes / noise differ from a fresh object)
-            is_prop = "fresh generator" in what or "RNG stream" in what or "re-seeded" in what
+            is_prop = "fresh generator" in what
             ctx.violation("correspondence: %s history vs state machine, at %s" % (cls, step), what,
                           dict(plan=plan, step=t, gops=gops), key="rm_history:" + what.split(":")[0],
                           no_input=not is_prop)
             return len(gops)
+    STATS["gen_ops"] += len(gops)
+    STATS["resets"] += int(rows[-1][0])
+    STATS["fresh_generators_built"] += len(cache)
     return len(gops)
 
 
@@ -610,7 +618,10 @@ def run_plan_fo(ctx, gs, drv, plan):
         if (ok == 0) != ob["raised"]:
             return fail(t, "exception: model %s, implementation %s" % ("raises" if ok == 0 else "succeeds", "raised" if ob["raised"] else "succeeded"), False)
         if ok == 0:
+            STATS["raises"] += 1
             break
+        STATS["gen_ops"] += 1
+        STATS["int_seed_states" if ekind == 0 else "entropy_states"] += 1
         m_mn = [mn0, mn1, mn2][:nlen]
         what = None
         if m_resets != ob["resets"]:
@@ -650,6 +661,8 @@ def run_plan_fo(ctx, gs, drv, plan):
         if what is None and out_kind == 1 and ekind == 0:
             gm = tbl.objs[m_midx]
             sm = G._summate_fourier(fr._spectrum_factor, fr._modes, fr._z_1, fr._z_2, np.asarray(ob["info"]["pos"], dtype=np.double))
+            STATS["fields_checked"] += 1
+            STATS["noise_fields"] += int(has_noise)
             if has_noise:
                 sub = stream.subseed(n_ek, n_ev, n_pos)
                 exp = sm + np.sqrt(gm.nugget) * np.random.RandomState(sub).normal(size=sm.shape)
@@ -661,7 +674,7 @@ def run_plan_fo(ctx, gs, drv, plan):
                 what = "field of the history object differs from the field of a fresh generator (seed %d, model row %d%s)" % (
                     evl, m_midx, ", noise sub-stream %d" % n_pos if has_noise else "")
         if what is not None:
-            return fail(t, what, "fresh generator" in what or "RNG stream" in what or "re-seeded" in what)
+            return fail(t, what, "fresh generator" in what)
     return len(gops)
 
 
@@ -718,6 +731,12 @@ def tie_calls(ctx, gs, drv, rng, reps):
             if not C.close(ref, np.asarray(mod).reshape(ref.shape), rtol=1e-9, scale=sc):
                 ctx.violation("correspondence: IncomprRandMeth.__call__ vs model incompr_call", "generator call differs from its model",
                               dict(dim=dim, n=n, N=N), key="tie:incompr_call", no_input=True)
+            dd, ii = int(rng.integers(dim)), int(rng.integers(n))
+            one = drv.call("ic_value", mu, float(m.var), ("n", N), v._cov_sample, v._z_1, v._z_2, ("n", dim), ("n", dd),
+                           np.ascontiguousarray(pos[:, ii]))
+            if not C.close([ref[dd, ii]], [one], rtol=1e-9, scale=sc):
+                ctx.violation("correspondence: IncomprRandMeth.__call__ vs model ic_value", "per-point component differs",
+                              dict(dim=dim, d=dd, ref=C.fhex(ref[dd, ii]), model=C.fhex(one)), key="tie:ic_value", no_input=True)
         # generate_grid / C-order index
         lens = [int(rng.integers(1, 4)) for _ in range(dim)]
         axes = [np.sort(rng.uniform(-5, 5, k)) for k in lens]
@@ -1040,7 +1059,6 @@ def run(ctx, only_plan=None):
     ]
     ctx.not_proved = [
         "IEEE rounding: the locality theorems are generic in the number type (they hold for doubles as they are); isometrize (matrix product) is C12's subject and is only probed here",
-        "summate_incompr (IncomprRandMeth): no closed-form per-point spec is proved in C15, so its locality is probed (bitwise) and its __call__ tied by execution, not proved",
         "Fourier fresh-state theorem assumes an exact model comparison; with np.isclose a sub-tolerance model change together with an explicit mode_no leaves delta_k of the old anisotropy (known finding c)",
         "states after an operation raised are outside the theorems (histories are those in which no operation raises)",
         "seed=None draws OS entropy: determinism is claimed and proved for integer seeds only (modes_of of the effective seed)",
@@ -1071,10 +1089,10 @@ def run(ctx, only_plan=None):
                 (run_plan_fo if only_plan["kind"] == "fo_history" else run_plan_rm)(ctx, gs, drv, only_plan)
             return
         corpus_isclose(ctx, gs, drv)
-        n_hist = 60 if thorough else 14
+        n_hist = 160 if thorough else 14
         n_ops = 14 if thorough else 10
         if drv is not None:
-            tie_calls(ctx, gs, drv, rng, 40 if thorough else 10)
+            tie_calls(ctx, gs, drv, rng, 80 if thorough else 10)
             tie_compare(ctx, gs, drv, rng, 400 if thorough else 80)
             for h in range(n_hist):
                 for cls in ("RandMeth", "IncomprRandMeth"):
@@ -1100,9 +1118,10 @@ def run(ctx, only_plan=None):
                 for op in plan["ops"]:
                     ctx.dist.setdefault("op", {})
                     ctx.dist["op"]["F:" + op[0]] = ctx.dist["op"].get("F:" + op[0], 0) + 1
-        probe_locality(ctx, gs, rng, 90 if thorough else 24)
-        probe_history_vs_fresh(ctx, gs, rng, 150 if thorough else 36)
-        probe_equal_histories(ctx, gs, rng, 60 if thorough else 15)
+        probe_locality(ctx, gs, rng, 240 if thorough else 24)
+        probe_history_vs_fresh(ctx, gs, rng, 450 if thorough else 36)
+        probe_equal_histories(ctx, gs, rng, 150 if thorough else 15)
+        ctx.notes.append("history correspondence: %s" % json.dumps(STATS))
     finally:
         if drv:
             drv.close()
